@@ -149,6 +149,36 @@ template<class T> static bool apply_op(Queue<T> & q, Ideal & ideal, const std::s
       Ideal nw; for (size_t i=0; i<ideal.size(); i++) if ((nw.empty())||(nw.back() != ideal[i])) nw.push_back(ideal[i]);
       ideal = nw;
    }
+   else if ((c == "atr")||(c == "ahr")||(c == "rar"))
+   {
+      // the argument is a reference into the Queue's own storage
+      if (U(1) < q.GetNumItems())
+      {
+         const int x = ideal[U(1)];
+         if (c == "atr") {o << (q.AddTail(q[U(1)]).IsOK() ? "ok" : "err"); ideal.push_back(x);}
+         else if (c == "ahr") {o << (q.AddHead(q[U(1)]).IsOK() ? "ok" : "err"); ideal.insert(ideal.begin(), x);}
+         else {o << "n" << q.RemoveAllInstancesOf(q[U(1)]); Ideal nw; for (size_t i=0; i<ideal.size(); i++) if (ideal[i]!=x) nw.push_back(ideal[i]); ideal = nw;}
+      }
+      else o << ((c == "rar") ? "n0" : "err");
+   }
+   else if (c == "iar")
+   {
+      if (U(2) < q.GetNumItems()) {const int x = ideal[U(2)]; o << (q.InsertItemAt(U(1), q[U(2)]).IsOK() ? "ok" : "err"); size_t p = std::min((size_t)U(1), ideal.size()); ideal.insert(ideal.begin()+p, x);}
+      else o << "err";
+   }
+   else if (c == "rpr")
+   {
+      if ((U(1) < q.GetNumItems())&&(U(2) < q.GetNumItems())) {o << (q.ReplaceItemAt(U(1), q[U(2)]).IsOK() ? "ok" : "err"); ideal[U(1)] = ideal[U(2)];}
+      else o << "err";
+   }
+   else if (c == "stf") {o << (q.ShrinkToFit(U(1)).IsOK() ? "ok" : "err");}
+   else if (c == "eca") {o << (q.EnsureCanAdd(U(1)).IsOK() ? "ok" : "err");}
+   else if (c == "rpa") {q.ReplaceAllItems(T(I(1))); o << "-"; for (size_t i=0; i<ideal.size(); i++) ideal[i] = I(1);}
+   else if (c == "gap")
+   {
+      o << "l"; bool first = true;
+      for (uint32 w=0; w<2; w++) {uint32 len = 0; const T * p = q.GetArrayPointer(w, len); if (p) for (uint32 i=0; i<len; i++) {if (!first) o << ","; first = false; o << val(p[i]);}}
+   }
    else if (c == "isp")
    {
       o << "i" << q.InsertItemAtSortedPosition(T(I(1)));
@@ -173,6 +203,7 @@ template<class T> static bool apply_op2(Queue<T> & qa, Ideal & ia, Queue<T> & qb
    else if (c == "cq") {o << (t.CopyFrom(r).IsOK() ? "ok" : "err"); it = ir;}
    else if (c == "as") {t = r; it = ir; o << "-";}
    else if (c == "eq") {o << ((qa == qb) ? "ok" : "err");}
+   else if (c == "cmp") {o << "v" << ((t < r) ? -1 : ((t > r) ? 1 : 0)); if ((t <= r) != (!(t > r))) o << "!"; if ((t >= r) != (!(t < r))) o << "!";}
    else if (c == "stw") {o << (t.StartsWith(r) ? "ok" : "err");}
    else if (c == "enw") {o << (t.EndsWith(r) ? "ok" : "err");}
    else if ((c == "atq")||(c == "ahq"))
